@@ -20,6 +20,10 @@ func init() {
 			"the post-processing stages that establish the order (dedupe ≺ fetch ids ≺ nested dependencies on the flat tree, dependency ordering ≺ parallel grouping, defer extraction while flat, the same stage set for all three plan kinds) are wired in the required order. " +
 			"It does not decide the topological correctness of the ordering algorithms for arbitrary dependency graphs.",
 		Mutants: []Mutant{
+			{Name: "an extensions object is collected without the fetch it came from (breaks the ordering key of the F96 fix)", File: loaderGo, Rule: "C08-R5", Key: "Loader.collectSubgraphExtensions/appends-with-its-key:subgraphExtensionsOrigins",
+				Old: "\tl.subgraphExtensionsOrigins = append(l.subgraphExtensionsOrigins, origin)\n", New: "\t_ = origin\n"},
+			{Name: "the defer group hands its extensions to the renderer in completion order (reverts part of the F96 fix)", File: "v2/pkg/engine/resolve/resolve.go", Rule: "C08-R5", Key: "Resolver.resolveDeferSingle/handover-in-plan-order:subgraphExtensions",
+				Old: "groupLoader.orderedSubgraphExtensions()", New: "groupLoader.subgraphExtensions"},
 			{Name: "union of member dependencies stops at the first duplicate (seeded change C08-11)", File: "v2/pkg/engine/postprocess/create_multi_fetch.go", Rule: "C08-R4", Key: "merged-deps",
 				Old: "\t\t\tif _, dup := seen[dep]; dup {\n\t\t\t\tcontinue\n\t\t\t}\n\t\t\tseen[dep] = struct{}{}\n\t\t\tdeps = append(deps, dep)", New: "\t\t\tif _, dup := seen[dep]; dup {\n\t\t\t\tbreak\n\t\t\t}\n\t\t\tseen[dep] = struct{}{}\n\t\t\tdeps = append(deps, dep)"},
 			{Name: "merge phase without the data lock", File: loaderGo, Rule: "C08-R1", Key: "mergeResult",
@@ -47,6 +51,7 @@ func init() {
 }
 
 func runC08(r *fw.Run) {
+	defer c08CompletionOrderedCollectionsAreHandedOverInPlanOrder(r)
 	p := r.Prog
 	pk := p.Pkg("resolve")
 	if pk == nil {
@@ -71,6 +76,7 @@ func runC08(r *fw.Run) {
 		"Resolver.executeSubscriptionUpdate":   "post-join read after LoadGraphQLResponseData returned (one loader per update)",
 		"DataBuffer.Get":                       "accessor: the caller's lock set is what is checked (at the call of Get)",
 		"DataBuffer.Set":                       "accessor: the caller's lock set is what is checked (at the call of Set)",
+		"Loader.orderedSubgraphExtensions":     "hand-over accessor: the caller's lock set is what is checked (at the call)",
 	}
 	var guards []fw.Guard
 	for _, f := range []string{"errors", "erroredFetchIDs", "taintedObjs", "subgraphErrors", "subgraphExtensions", "skipValueCompletion", "jsonArena"} {
@@ -91,20 +97,25 @@ func runC08(r *fw.Run) {
 			return
 		}
 		isGet, isSet := fw.CallIs(in.Info, c, "resolve", "DataBuffer.Get"), fw.CallIs(in.Info, c, "resolve", "DataBuffer.Set")
-		if !isGet && !isSet {
+		isHandOver := fw.CallIs(in.Info, c, "resolve", "Loader.orderedSubgraphExtensions")
+		if !isGet && !isSet && !isHandOver {
 			return
 		}
-		nAcc++
-		name := "Get"
+		name := "DataBuffer.Get"
 		if isSet {
-			name = "Set"
+			name = "DataBuffer.Set"
 		}
-		key := fw.SiteLabel(in) + "/DataBuffer." + name
-		if why, ok := single[in.FI.Name()]; ok && in.FI.Name() != "DataBuffer.Get" && in.FI.Name() != "DataBuffer.Set" {
-			r.Pass("C08-R1", key, p.Pos(c.Pos()), "DataBuffer."+name+" in "+in.FI.Name()+" (exempt: "+why+")", false)
+		if isHandOver {
+			name = "Loader.orderedSubgraphExtensions"
+		} else {
+			nAcc++
+		}
+		key := fw.SiteLabel(in) + "/" + name
+		if why, ok := single[in.FI.Name()]; ok && in.FI.Name() != "DataBuffer.Get" && in.FI.Name() != "DataBuffer.Set" && in.FI.Name() != "Loader.orderedSubgraphExtensions" {
+			r.Pass("C08-R1", key, p.Pos(c.Pos()), name+" in "+in.FI.Name()+" (exempt: "+why+")", false)
 			return
 		}
-		r.Check(fw.Held(st, lkData, false), "C08-R1", key, p.Pos(c.Pos()), "DataBuffer."+name+" in "+fw.SiteLabel(in),
+		r.Check(fw.Held(st, lkData, false), "C08-R1", key, p.Pos(c.Pos()), name+" in "+fw.SiteLabel(in),
 			"the shared response tree is read/replaced without DataBuffer.mu (held: "+strings.Join(fw.HeldLocks(st), ",")+"): a concurrent merge mutates it in place")
 	})
 	r.Expect("C08-R1", "calls of DataBuffer.Get/Set", nAcc, 6)
@@ -530,4 +541,158 @@ func stageOrder(r *fw.Run, rule, pkg, fn string, order []string, ownerType strin
 			r.Fail(rule, fi.Name()+"/runs:"+s, fi.Pos(), "stage "+s+" is invoked in "+fi.Name(), "the stage is no longer invoked")
 		}
 	}
+}
+
+// c08CompletionOrderedCollectionsAreHandedOverInPlanOrder (R5): the loader appends to its slice fields while it merges, and
+// for the children of a Parallel node the merge order is the completion order. A slice the renderer reduces by position —
+// the forwarded subgraph extensions: per key the first, or the last, collected value wins — therefore must not reach the
+// Resolvable in that order. Rule (sibling agreement over the hand-over sites that R8 of C07 enumerates): (a) wherever a
+// slice-typed field of a Resolvable is assigned from a Loader, the right-hand side is a call of a Loader method that
+// sorts (sort.* / slices.Sort*), never the bare field; (b) every function that appends to the Loader field that method
+// returns also appends to each companion slice the sort reads, so the ordering key of an element cannot be missing (the
+// method falls back to merge order when the lengths differ).
+func c08CompletionOrderedCollectionsAreHandedOverInPlanOrder(r *fw.Run) {
+	p := r.Prog
+	r.Rule("C08-R5", "a slice the loader fills in merge (completion) order and the renderer reduces by position reaches the Resolvable through a Loader method that sorts it by a plan-derived key; whoever appends to the slice also appends the key")
+	isSort := func(fn *types.Func) bool {
+		if fn == nil || fn.Pkg() == nil {
+			return false
+		}
+		return (fn.Pkg().Path() == "sort" && (fn.Name() == "Slice" || fn.Name() == "SliceStable" || fn.Name() == "Sort" || fn.Name() == "Stable")) ||
+			(fn.Pkg().Path() == "slices" && strings.HasPrefix(fn.Name(), "Sort"))
+	}
+	sorters := map[*types.Func]*fw.FuncInfo{}
+	for _, fi := range p.Funcs("resolve") {
+		if fw.RecvNameOfFunc(fi.Obj) != "Loader" {
+			continue
+		}
+		info := fi.Info()
+		fw.WalkAll(fi.Decl.Body, func(nd ast.Node) bool {
+			if c, ok := nd.(*ast.CallExpr); ok && isSort(fw.Callee(info, c)) {
+				sorters[fi.Obj] = fi
+			}
+			return true
+		})
+	}
+	n := 0
+	ordered := map[*types.Func]bool{}
+	for _, fi := range p.Funcs("resolve") {
+		info := fi.Info()
+		seen := map[string]int{}
+		fw.WalkAll(fi.Decl.Body, func(nd ast.Node) bool {
+			as, ok := nd.(*ast.AssignStmt)
+			if !ok || len(as.Lhs) != len(as.Rhs) {
+				return true
+			}
+			for i, l := range as.Lhs {
+				fv, sel := fw.Field(info, l)
+				if fv == nil {
+					continue
+				}
+				if _, tn := fw.FieldOwner(info, sel); tn != "Resolvable" {
+					continue
+				}
+				if _, isSlice := fv.Type().Underlying().(*types.Slice); !isSlice {
+					continue
+				}
+				// the right-hand side comes from a Loader?
+				rhs := ast.Unparen(as.Rhs[i])
+				fromLoader, viaSorter := false, false
+				if rv, rsel := fw.Field(info, rhs); rv != nil {
+					if _, rtn := fw.FieldOwner(info, rsel); rtn == "Loader" {
+						fromLoader = true
+					}
+				}
+				if c, isCall := rhs.(*ast.CallExpr); isCall {
+					if fn := fw.Callee(info, c); fn != nil && fw.RecvNameOfFunc(fn) == "Loader" {
+						fromLoader = true
+						if sorters[fn] != nil {
+							viaSorter = true
+							ordered[fn] = true
+						}
+					}
+				}
+				if !fromLoader {
+					continue
+				}
+				n++
+				key := fi.Name() + "/handover-in-plan-order:" + fv.Name()
+				seen[key]++
+				if seen[key] > 1 {
+					key += "#" + itoa(seen[key])
+				}
+				r.Check(viaSorter, "C08-R5", key, p.Pos(as.Pos()), fi.Name()+" hands "+fv.Name()+" to the Resolvable through a sorting method of the Loader",
+					fi.Name()+" hands the loader's "+fv.Name()+" to the Resolvable as collected, i.e. in the order in which parallel fetches were merged: with `Parallel(s1, s2)` answering `\"extensions\":{\"traceId\":\"s1\"}` / `{\"traceId\":\"s2\"}` the response carries `traceId: s1` when s1 completes first and `traceId: s2` otherwise (first_write; the reverse for last_write) — the response bytes depend on the completion order")
+			}
+			return true
+		})
+	}
+	r.Expect("C08-R5", "hand-over sites of a loader slice to a Resolvable", n, 5)
+	// (b) companions
+	nPair := 0
+	for fn := range ordered {
+		sfi := sorters[fn]
+		sinfo := sfi.Info()
+		// the field returned / permuted, and the companions read inside function literals (the comparator)
+		var data *types.Var
+		companions := map[*types.Var]bool{}
+		fw.WalkAll(sfi.Decl.Body, func(nd ast.Node) bool {
+			if lit, ok := nd.(*ast.FuncLit); ok {
+				fw.WalkAll(lit.Body, func(x ast.Node) bool {
+					if e, isE := x.(ast.Expr); isE {
+						if fv, sel := fw.Field(sinfo, e); fv != nil {
+							if _, tn := fw.FieldOwner(sinfo, sel); tn == "Loader" {
+								if _, isSlice := fv.Type().Underlying().(*types.Slice); isSlice {
+									companions[fv] = true
+								}
+							}
+						}
+					}
+					return true
+				})
+			}
+			if ret, ok := nd.(*ast.ReturnStmt); ok && len(ret.Results) == 1 {
+				if fv, sel := fw.Field(sinfo, ret.Results[0]); fv != nil {
+					if _, tn := fw.FieldOwner(sinfo, sel); tn == "Loader" {
+						data = fv
+					}
+				}
+			}
+			return true
+		})
+		if data == nil {
+			r.Error("C08-R5: the slice " + sfi.Name() + " orders was not recognised")
+			continue
+		}
+		delete(companions, data)
+		for _, fi := range p.Funcs("resolve") {
+			info := fi.Info()
+			writes := map[*types.Var]bool{}
+			fw.WalkAll(fi.Decl.Body, func(nd ast.Node) bool {
+				for _, t := range fw.WriteTargets(info, nd) {
+					if fv, sel := fw.Field(info, t); fv != nil {
+						if _, tn := fw.FieldOwner(info, sel); tn == "Loader" {
+							// clearing (nil / [:0]) is not an append
+							if as, isAs := nd.(*ast.AssignStmt); isAs && len(as.Rhs) == 1 {
+								if c, isC := ast.Unparen(as.Rhs[0]).(*ast.CallExpr); !isC || fw.Builtin(info, c) != "append" {
+									continue
+								}
+							}
+							writes[fv] = true
+						}
+					}
+				}
+				return true
+			})
+			if !writes[data] {
+				continue
+			}
+			for c := range companions {
+				nPair++
+				r.Check(writes[c], "C08-R5", fi.Name()+"/appends-with-its-key:"+c.Name(), p.Pos(fi.Decl.Pos()), fi.Name()+" appends to "+data.Name()+" together with "+c.Name(),
+					fi.Name()+" appends to Loader."+data.Name()+" without appending to "+c.Name()+", which "+sfi.Name()+" sorts by: the lengths differ, the method falls back to merge order and the forwarded extensions depend on the completion order again")
+			}
+		}
+	}
+	r.Expect("C08-R5", "appenders of an ordered loader slice checked for the companion key", nPair, 1)
 }
